@@ -344,6 +344,9 @@ class DocGen:
             attrs.append(("w:anchor", rng.choice(["sec1", "a b", "x\"y", "_Toc<1>"])))
         if rng.random() < 0.2:
             attrs.append(("w:tgtFrame", rng.choice(["_blank", "", "frame"])))
+        if rng.random() < 0.25:
+            # attributes Word writes that have no HTML counterpart in the converter
+            attrs.append(rng.choice([("w:tooltip", "tip <&> text"), ("w:history", "1"), ("w:docLocation", "loc")]))
         children = []
         for _ in range(rng.randint(0, 2)):
             children.extend(self.inline(depth + 1, allow_link=False))
